@@ -398,28 +398,39 @@ func u64LE(x uint64) []byte {
 	return b
 }
 
+// canaryHook, if set, is told about every canary object created for a component value (C14 weak ledger).
+var canaryHook func(c uint64, p *Canary)
+
+func hookedCanary(c uint64) *Canary {
+	p := newCanary(c)
+	if canaryHook != nil {
+		canaryHook(c, p)
+	}
+	return p
+}
+
 func makePtrValue(tp reflect.Type, c uint64) interface{} {
 	switch tp {
 	case ptrTypes[0]:
 		if c == 0 {
 			return &PtrA{}
 		}
-		return &PtrA{P: newCanary(c), S: []uint64{c, c + 1, c + 2}, Str: canaryStr(c), M: map[uint64]uint64{c: c + 1}}
+		return &PtrA{P: hookedCanary(c), S: []uint64{c, c + 1, c + 2}, Str: canaryStr(c), M: map[uint64]uint64{c: c + 1}}
 	case ptrTypes[1]:
 		if c == 0 {
 			return &PtrB{}
 		}
-		return &PtrB{Pad: uint32(c), P: newCanary(c), S: []uint64{c, c + 1, c + 2}}
+		return &PtrB{Pad: uint32(c), P: hookedCanary(c), S: []uint64{c, c + 1, c + 2}}
 	case ptrTypes[2]:
 		if c == 0 {
 			return &PtrC{}
 		}
-		return &PtrC{Str: canaryStr(c), P: newCanary(c)}
+		return &PtrC{Str: canaryStr(c), P: hookedCanary(c)}
 	case ptrRelType:
 		if c == 0 {
 			return &PtrRel{}
 		}
-		return &PtrRel{P: newCanary(c)}
+		return &PtrRel{P: hookedCanary(c)}
 	}
 	panic("not a pointer type")
 }
@@ -588,6 +599,14 @@ func (s *Sys) Apply(op *COp) (res Result) {
 		switch op.Variant {
 		case "Set":
 			res.Ptr = w.Set(op.Ent, s.IDs[op.Type], s.makeValue(op.Type, op.Val))
+		case "SetLiteral", "MapSetLiteral":
+			p, ok := literalSet(w, s.Types[op.Type], op.Ent, s.IDs[op.Type], leU64(op.Val), op.Variant == "MapSetLiteral")
+			if !ok {
+				p = w.Set(op.Ent, s.IDs[op.Type], s.makeValue(op.Type, op.Val))
+			}
+			// reuse the stack region the helper's frame occupied (a later call would do the same sooner or later)
+			clobberSink += clobber(24)
+			res.Ptr = p
 		case "GetWrite":
 			p := w.Get(op.Ent, s.IDs[op.Type])
 			res.Ptr = p
